@@ -659,9 +659,11 @@ class Node:
                 # True or index: all nodes are inserted at the same position,
                 # so iterate backwards to maintain the order
                 topnodes.reverse()
+            new_node = None
             for n in topnodes:
-                self.add_child(n, before=before, deep=deep)
-            return n  # need to return a node
+                new_node = self.add_child(n, before=before, deep=deep)
+            # Return the copy that was created last (None if `child` is empty)
+            return new_node  # type: ignore
 
         source_node = None
         factory = self._tree._node_factory
